@@ -98,6 +98,17 @@ def main():
             if os.path.exists(mp):
                 m = json.load(open(mp))
                 results += run_one(os.path.join("seeded", d, "patch.diff"), m.get("checks", [m["property"]]), tier, keep, m.get("base"))
+    elif a and a[0] == "--all-benign":
+        # behaviour-preserving changes: NO check may raise an alarm
+        allp = ["C%02d" % k for k in range(1, 21) if k not in (16, 17)]
+        bd = os.path.join(V, "benign")
+        fa = 0
+        for f in sorted(os.listdir(bd)):
+            if f.endswith(".diff"):
+                rs = run_one(os.path.join("benign", f), allp, tier, keep)
+                fa += len([r for r in rs if r[2] != "MISSED"])
+        print("benign changes: %d false alarm(s) / harness errors" % fa)
+        return 1 if fa else 0
     elif len(a) >= 2:
         results += run_one(a[0], a[1:], tier, keep)
     else:
